@@ -104,6 +104,11 @@ def filled(content, fill):
     if not fill or not content:
         return content
     n = len(content)
+    if fill == "words":
+        # a file whose bytes look like FileSync traffic (a dump of such traffic, say): FAIL / DONE / DATA / OKAY records with small length fields
+        import struct as _st
+        unit = b"".join(w + _st.pack("<I", k) + b"x" * k for (w, k) in ((b"FAIL", 3), (b"DONE", 0), (b"FAIL", 0), (b"DATA", 5), (b"OKAY", 0), (b"FAIL", 12), (b"QUIT", 0), (b"DENT", 1)))
+        return (unit * (n // len(unit) + 1))[:n]
     if fill == "zeros":
         return b"\0" * n
     if fill == "zerotail":
